@@ -324,8 +324,83 @@ func (s *Solver) Values(vars []*Term) (map[string]uint64, error) {
 	return res, nil
 }
 
+// ValuesT returns the model values of arbitrary terms, in order.
+func (s *Solver) ValuesT(terms []*Term) ([]uint64, error) {
+	out := make([]uint64, len(terms))
+	var idx []int
+	var qs []*Term
+	for k, t := range terms {
+		if t.IsConst() {
+			out[k] = t.K
+			continue
+		}
+		idx = append(idx, k)
+		qs = append(qs, t)
+	}
+	const batch = 1000
+	for start := 0; start < len(qs); start += batch {
+		end := start + batch
+		if end > len(qs) {
+			end = len(qs)
+		}
+		var sb strings.Builder
+		sb.WriteString("(get-value (")
+		for _, v := range qs[start:end] {
+			s.define(v)
+			sb.WriteString(s.ref(v) + " ")
+		}
+		sb.WriteString("))")
+		s.send(sb.String())
+		s.in.Flush()
+		depth, started := 0, false
+		var buf strings.Builder
+		for !started || depth > 0 {
+			line, err := s.out.ReadString('\n')
+			if err != nil {
+				return nil, err
+			}
+			if strings.HasPrefix(strings.TrimSpace(line), "(error") {
+				return nil, fmt.Errorf("solver: %s", line)
+			}
+			inBar := false
+			for _, c := range line {
+				switch {
+				case c == '|':
+					inBar = !inBar
+				case inBar:
+				case c == '(':
+					depth++
+					started = true
+				case c == ')':
+					depth--
+				}
+			}
+			buf.WriteString(line)
+		}
+		vals := parseValueList(buf.String())
+		if len(vals) != end-start {
+			return nil, fmt.Errorf("solver: get-value returned %d values for %d terms", len(vals), end-start)
+		}
+		for k, v := range vals {
+			out[idx[start+k]] = v
+		}
+	}
+	return out, nil
+}
+
+func parseValueList(txt string) []uint64 {
+	m := map[string]uint64{}
+	var order []uint64
+	parseValuesOrdered(txt, m, &order)
+	return order
+}
+
 // parseValues parses ((|name| #x..) (name2 #b..) (b true)).
 func parseValues(txt string, res map[string]uint64) {
+	parseValuesOrdered(txt, res, nil)
+}
+
+func parseValuesOrdered(txt string, res map[string]uint64, order *[]uint64) {
 	i := 0
 	n := len(txt)
 	skip := func() {
@@ -391,6 +466,9 @@ func parseValues(txt string, res map[string]uint64) {
 			v, _ = strconv.ParseUint(f[0], 10, 64)
 		}
 		res[name] = v
+		if order != nil {
+			*order = append(*order, v)
+		}
 	}
 }
 
